@@ -76,6 +76,28 @@ pub fn c20(rng: &mut Rng, thorough: bool, idx: u64) -> Spec {
         c.patience_ms = 30_000;
         clients.push(c);
     }
+    // a client that is thrown out by the pooler while it holds a server inside a transaction
+    // (Bind of a statement it never prepared, with the statement cache on): the server must not be
+    // handed to anybody else in that state, mirrors or not
+    if rng.chance(0.5) {
+        cfg.pools[0].cache_size = 8;
+        let id = 50;
+        let mut p = Prog::new(id);
+        p.new_txn();
+        let t = p.tag();
+        p.simple(format!("BEGIN /* {} */", t));
+        let t = p.tag();
+        p.simple(format!("SET statement_timeout TO 31337 /* {} */", t));
+        let tag = p.tag();
+        let tt = p.t;
+        p.steps.push(Step::Send { msgs: vec![FrontMsg::B { portal: "".into(), stmt: "never_prepared".into(), fmt: vec![], params: vec![Some(tag)], rfmt: vec![], binary_hex: false }, FrontMsg::E { portal: "".into(), max: 0 }, FrontMsg::S], rfq: None, cut: None, abort: false, txn: tt });
+        p.steps.push(Step::Hold { until: None, max_ms: 200 });
+        p.steps.push(Step::Drop { abort: false });
+        let mut c = client(id, "app", "db", "apppw", rng.range(0, 300), p.steps);
+        c.role = "attacker".into();
+        c.patience_ms = 3000;
+        clients.push(c);
+    }
     let mut actions = Vec::new();
     let mut fault_kinds = Vec::new();
     if mode >= 2 {
@@ -111,6 +133,7 @@ pub fn c20(rng: &mut Rng, thorough: bool, idx: u64) -> Spec {
     let mut spec = Spec { config_toml: cfg.render(), hosts: cfg.hosts(), net, clients, actions, end: EndSpec { deadline_ms: 900_000, calm_ms: 100 }, ..Default::default() };
     spec.params = params_from(&cfg);
     spec.params.insert("calm_net".into(), serde_json::json!(calm));
+    spec.params.insert("cache_on".into(), serde_json::json!(cfg.pools[0].cache_size > 0));
     spec.params.insert("mirror_mode".into(), serde_json::json!(mode));
     spec.params.insert("mirror_faults".into(), serde_json::json!(fault_kinds));
     spec.family = format!("mirrors/{}{}", ["none", "healthy", "faulty", "faulty"][mode as usize], if session { "/session" } else { "" });
